@@ -176,7 +176,7 @@ PROPS = {
                     "cfor_consumes_break_continue: without init, with a var / assignment init (the forms the grammar admits) and with any init that does not itself signal"],
     },
     "C04": {
-        "gens": [],
+        "gens": ["ScopeFlow"],
         "lean": "Anko.Props.C04",
         "streams": [{"name": "scope", "n_quick": 100, "n_thorough": 100},
                     {"name": "vm", "n_quick": 3000, "n_thorough": 60000}],
